@@ -275,3 +275,24 @@ Proof.
   - destruct (N.leb (fst t) th); intros H; inversion H. subst w. exact Ht.
   - intros H. inversion H. subst w. exact Ht.
 Qed.
+
+(* the fold keeps a candidate at minimal distance (or the initial accumulator when no candidate is closer) *)
+Theorem fuzzy_fold_minimal key : forall lst acc t, fuzzy_fold key lst acc = POk t ->
+  (forall w', In w' lst -> exists d', levenshtein key w' = POk d' /\ (fst t <= d')%N) /\
+  (fst t <= fst acc)%N /\
+  (t = acc \/ (In (snd t) lst /\ levenshtein key (snd t) = POk (fst t))).
+Proof.
+  induction lst as [|w lst IH]; intros acc t; cbn [fuzzy_fold].
+  - intros H. inversion H. subst t. split; [intros w' []|]. split; [lia|left; reflexivity].
+  - destruct (levenshtein key w) as [e|] eqn:E; cbn [pbind]; [|discriminate].
+    intros H. apply IH in H. destruct H as [Hall [Hle Hsrc]].
+    destruct (N.ltb_spec e (fst acc)) as [Hlt|Hge]; cbn [fst snd] in *.
+    + split; [|split].
+      * intros w' [<-|Hin]; [exists e; split; [exact E|exact Hle]|apply Hall; exact Hin].
+      * lia.
+      * destruct Hsrc as [->|[Hin Hd]]; right; cbn [fst snd]; [split; [left; reflexivity|exact E]|split; [right; exact Hin|exact Hd]].
+    + split; [|split].
+      * intros w' [<-|Hin]; [exists e; split; [exact E|lia]|apply Hall; exact Hin].
+      * exact Hle.
+      * destruct Hsrc as [->|[Hin Hd]]; [left; reflexivity|right; split; [right; exact Hin|exact Hd]].
+Qed.
